@@ -21,18 +21,18 @@ CHECKS = {
    note="Trusted: ref_sqw decoder; scipp unit conversion; the reader is only consulted for structurally sound files."),
  "C14": dict(level="exploration", design="DESIGN.md §5 C14, §9.2",
    technique="deterministic simulation with fault injection: seeded programs over pools of CIF builders/blocks/chunks/loops (derivations, copies, repeated saves, refused operations followed by continued use), scripted clock, ENOSPC at every write ordinal of a save followed by a save of the same builder, RLIMIT_FSIZE on paths; independent CIF 1.1 parser + reference model of the program as oracle; known finding attributed by counterfactual",
-   text="Seeded programs of builder calls write through a simulated text sink or a real path; an independent CIF 1.1 parser must accept every saved text and recover exactly the supplied tags, values (strings up to surrounding blanks, numbers to printed precision, value(su), sqrt(variance) columns), loop shapes and order; author-role ids, ASCII-only and comment isolation are checked on every save; failed saves (every write ordinal) are followed by a save of the same builder that must be complete. String values come from a labelled hazard alphabet.",
+   text="Seeded programs of builder calls write through a simulated text sink or a real path; an independent CIF 1.1 parser must accept every saved text and recover exactly the supplied tags, values (strings up to surrounding blanks, numbers to printed precision, value(su), sqrt(variance) columns), loop shapes and order; author-role ids, ASCII-only and comment isolation are checked on every save; failed saves (every write ordinal) are followed by a save of the same builder that must be complete. String values and comments come from a labelled hazard alphabet incl. long text around the 80/2048 character line limits; 10 % of runs switch their process to the POSIX locale.",
    note="Trusted: dsim/ref_cif.py (written from the CIF 1.1 grammar, self-tested on 24 hand-made documents). One recorded finding (F-C14-1: text with a line starting ';' has no CIF 1.1 representation) is attributed by counterfactual and reported as KNOWN-FINDING."),
  "C15": dict(level="exploration", design="DESIGN.md §5 C15, §9.2",
-   technique="deterministic simulation with fault injection (thin): save/load through simulated text sinks and real paths, reload in a freshly forked process, ENOSPC at every write ordinal / RLIMIT_FSIZE, retry, same target rewritten with other data",
-   text="Round trips through in-memory sinks and real files (read back in the same and in a freshly forked process), bit-exact coordinate/values, variances to 4 ulp, ASCII headers incl. control characters, the seven refusal cases leave the target unwritten, acknowledgement rule under write faults, retry after the fault, and a second data set written to the same target must be what is loaded afterwards.",
+   technique="deterministic simulation with fault injection (thin): save/load through simulated text sinks and real paths, reload in a freshly forked process, ENOSPC at every write ordinal / RLIMIT_FSIZE, retry, same target rewritten with other data, process locale (UTF-8 / POSIX) as a knob",
+   text="Round trips through in-memory sinks and real files (read back in the same and in a freshly forked process), bit-exact coordinate/values, variances to 4 ulp, ASCII headers incl. control characters, hostile coordinate names (they end up in the generated header), the eleven refusal cases (incl. 0-d masks) leave the target unwritten, acknowledgement rule under write faults, retry after the fault, and a second data set written to the same target must be what is loaded afterwards.",
    note="Close to a pure function; the simulator contributes the storage seam (sink kind, faults, rewrite, restart). Trusted: numpy text I/O."),
  "C17": dict(level="fault_enumeration", design="DESIGN.md §5 C17, §9.2",
    technique="deterministic simulation with fault injection: scipy's curve_fit behind a proxy that numbers, logs, fails (RuntimeError) or perturbs ('another legal optimum') individual optimiser calls; every single-failure plan (peak, call ordinal) enumerated for sampled inputs under a deterministic cost cap; isolation (multi-peak vs single-peak under the restricted plan), attempt-order, model-selection decomposition, coherence, requirements, window and removal oracles",
    text="For sampled spectra every optimiser call of the fault-free run is failed once (one plan per call; subsampled only above a deterministic cost bound, stated in the evidence), plus 'everything fails', 'every full fit of peak i fails' and seeded mixed plans. Each peak's result must equal fitting that peak alone under the restricted plan; bystander peaks must be bit-identical to the fault-free run; attempts follow the documented order; statistics are recomputed independently; success implies every requirement incl. an independently fitted background AIC; automatic windows obey their rules; remove_peaks touches only successful windows.",
    note="Trusted: dsim/ref_fit.py closed forms (cross-checked against FitResult.eval_model with a conditioning-aware tolerance); only RuntimeError (scipy's documented non-convergence signal) is injected; no optimiser numerics are predicted."),
  "C20": dict(level="exploration", design="DESIGN.md §5 C20, §9.2",
-   technique="deterministic simulation with fault injection: seeded lookup histories by 1-3 simulated callers, lru_cache pressure/eviction, settrace pre-emption inside the CSV scan (another caller's lookup mid-scan), OSError at open / n-th readline with retry, re-used Material objects; all 4046 rows swept; csv-module reference model",
+   technique="deterministic simulation with fault injection: seeded lookup histories by 1-3 simulated callers, lru_cache pressure/eviction, settrace pre-emption inside the CSV scan (another caller's lookup mid-scan), OSError at open / n-th readline with retry, re-used Material objects, process locale (UTF-8 / POSIX: default text encoding of open()) as a knob; all 4046 rows swept; csv-module reference model",
    text="Every row of the three tables is looked up (miss and post-eviction) in each check; seeded histories interleave callers, near-miss names (looked up repeatedly), cache pressure, pre-emption inside the scan loop and injected open/readline failures followed by one retry. Every answer is compared field by field with an independent parse of the CSVs; every other name must raise; the 1/v law is evaluated on looked-up parameters with fresh and re-used Material objects.",
    note="Trusted: csv-module parse of the same files; exact float equality (same float(str)); any exception counts as rejection; histories are sampled, the name space is enumerated."),
 }
